@@ -29,7 +29,15 @@ def run_real(template, tmpl: dict, plan: list, handler_cfg) -> dict:
     if handler_cfg is not None:
         handler = Handler(handler_cfg.get("fail_with"))
     res = {"out": None, "raise": None}
-    kw = {"P": probe}
+    err_records: list = []
+
+    def ERR(error):
+        err_records.append({
+            "type": getattr(error.type, "__name__", None),
+            "args": list(getattr(error.value, "args", ())),
+            "lineno": error.lineno, "offset": error.offset})
+        return ""
+    kw = {"P": probe, "ERR": ERR}
     kw.update(RENDER_ARGS)
     try:
         if handler is not None:
@@ -42,6 +50,7 @@ def run_real(template, tmpl: dict, plan: list, handler_cfg) -> dict:
     res["history"] = list(probe.history)
     res["handler"] = list(handler.calls) if handler else []
     res["raised"] = list(probe.raised)
+    res["err_records"] = err_records
     return res
 
 
